@@ -57,7 +57,8 @@ type cellXML struct {
 }
 
 type inlineStrXML struct {
-	T string `xml:"t"` // Text content
+	T string `xml:"t"` // Simple text
+	R []rXML `xml:"r"` // Rich text runs
 }
 
 type mergeCellsXML struct {
